@@ -29,7 +29,7 @@ def _norm(e) -> str:
 
 def run(chk, repo: Repo):
     chk.rule("C01-R1", "validation guards dominate the evaluation / conditioning they protect", floor=9)
-    chk.rule("C01-R2", "no folded constant and no factor is lost by reduction, evaluation or full conditioning", floor=8)
+    chk.rule("C01-R2", "no folded constant and no factor is lost by reduction, evaluation or full conditioning; `_constant` is only added to; a Posterior is constructed only at tabled sites or handed to _add_constants_to_density", floor=8)
     chk.rule("C01-R3", "evaluation and conditioning enumerate the complete factor list with per-factor variable selection", floor=2)
     chk.rule("C01-R4", "stacked view: sizes and names from the same enumeration; keyword evaluation ordered by parameter names", floor=4)
     chk.rule("C01-R5", "conditioning replaces every factor by a conditioned copy, then reduces (C11-R3)", floor=3)
